@@ -61,6 +61,12 @@ func (v V) JS() string {
 		return v.K
 	case "obj":
 		return "{}"
+	case "logobj":
+		return fmt.Sprintf("__L(%q,%s)", v.S, ox.JSNum(v.N))
+	case "rawstr":
+		// the characters themselves (UTF-8 source text), not \u escapes: an escaped
+		// surrogate pair in a literal is a different matter (lexer, C03/C09)
+		return `"` + v.S + `"`
 	}
 	panic("V.JS " + v.K)
 }
@@ -99,6 +105,10 @@ func (v V) ID() string {
 			ids[i] = e.ID()
 		}
 		return "[" + strings.Join(ids, " ") + "]"
+	case "logobj":
+		return "L(" + v.S + ")"
+	case "rawstr":
+		return "'" + v.S + "'"
 	}
 	return v.K
 }
@@ -114,7 +124,7 @@ func (v V) Model(w *cw) om.Value {
 		return om.NullV
 	case "num":
 		return om.Num(v.N)
-	case "str":
+	case "str", "rawstr":
 		return om.Str(v.S)
 	case "bool":
 		return om.Boolean(v.B)
@@ -137,6 +147,20 @@ func (v V) Model(w *cw) om.Value {
 		return om.ObjV(w.cb4)
 	case "obj":
 		return om.ObjV(w.r.NewObject())
+	case "logobj":
+		o := w.r.NewObject()
+		tag, n := v.S, v.N
+		vo := w.r.NewFunction("", func(r *om.Realm, _ om.Value, _ []om.Value) om.Value {
+			r.Log = append(r.Log, tag+".valueOf")
+			return om.Num(n)
+		})
+		ts := w.r.NewFunction("", func(r *om.Realm, _ om.Value, _ []om.Value) om.Value {
+			r.Log = append(r.Log, tag+".toString")
+			return om.Str(om.NumberToString(n))
+		})
+		o.Set("valueOf", om.DataDesc(om.ObjV(vo), true, true, true))
+		o.Set("toString", om.DataDesc(om.ObjV(ts), true, true, true))
+		return om.ObjV(o)
 	case "alike":
 		o := w.r.NewObject()
 		o.Set("length", om.DataDesc(om.Num(1), true, true, true))
